@@ -37,7 +37,16 @@ def _args_list(fi_params: List[str], args: Dict[str, AV]) -> List[AV]:
 
 def substitute_path(r: Rat, path: List[Tuple[str, bool]]) -> Rat:
     """Apply the equalities a path condition states to a specification's log-value."""
+    flat: List[Tuple[str, bool]] = []
     for text, truth in path:
+        # a helper's own path, folded into one note: `<Prefix._combine: not other.base == 0 & other.base == self.base>`
+        if truth and text.startswith("<") and text.endswith(">") and ": " in text:
+            for part in text[text.index(": ") + 2:-1].split(" & "):
+                part = part.strip()
+                flat.append((part[4:], False) if part.startswith("not ") else (part, True))
+        else:
+            flat.append((text, truth))
+    for text, truth in flat:
         t = text.replace(" ", "")
         if not truth:
             continue
@@ -46,7 +55,7 @@ def substitute_path(r: Rat, path: List[Tuple[str, bool]]) -> Rat:
             a = f"e:{who}"
             if a in r.atoms():
                 r = r.subst(a, Rat.const(0))
-        elif ".base==" in t and t.count(".base") == 2:
+        elif ".base==" in t and t.count(".base") == 2 and t.count("==") == 1:
             l, rr = t.split("==")
             x, y = l[: -len(".base")], rr[: -len(".base")]
             ax, ay = f"ln(b:{x})", f"ln(b:{y})"
